@@ -11,7 +11,9 @@
 (***************************************************************************)
 EXTENDS ModbusPDU, CodecAPI, TLC, Json, FiniteSets, SequencesExt
 
-CONSTANTS Set, Tier   \* which case space, "quick" / "thorough" (set in the generated .cfg)
+CONSTANTS Set, Tier,   \* which case space, "quick" / "thorough" (set in the generated .cfg)
+          Part, Parts   \* this run generates the cases whose partition key is Part modulo Parts (parallel generation)
+InPart(k) == k % Parts = Part
 Thorough == Tier = "thorough"
 
 VARIABLE c
@@ -97,15 +99,15 @@ TidsFor(r) == IF Thorough THEN {0, 1, 65535, 4660} ELSE {1, 65280}
 
 C02Normal(z) ==
     UNION {{PR(e, fr, RespADU(fr, t, r), "normal") : e \in RespEntries(fr, r.fc)} :
-             fr \in Framings, r \in NormalResps(0), t \in {4660}}
+             fr \in Framings, r \in {x \in NormalResps(0) : InPart(Len(x.data) + Len(x.id) + x.unit + x.fc)}, t \in {4660}}
     \cup UNION {{PR(e, "tcp", RespADU("tcp", t, r), "normal") : e \in RespEntries("tcp", r.fc)} :
-             r \in {x \in NormalResps(0) : Len(x.data) <= 4 /\ Len(x.id) <= 2}, t \in TidsFor(0)}
+             r \in {x \in NormalResps(0) : Len(x.data) <= 4 /\ Len(x.id) <= 2 /\ InPart(Len(x.data) + x.unit + x.fc)}, t \in TidsFor(0)}
 
 ExcCodes == IF Thorough THEN 0..255 ELSE {0, 1, 2, 3, 4, 5, 6, 8, 10, 11, 127, 128, 255}
 ExcFcs   == IF Thorough THEN 0..127 ELSE {0, 1, 2, 3, 4, 5, 6, 15, 16, 17, 23, 43, 100, 127}
 C02Exc(z) ==
     UNION {{PR(e, fr, ExcADU(fr, 4660, u, f, code), "exception") : e \in DispEntries(fr)} :
-             fr \in Framings, u \in {1, 255}, f \in ExcFcs, code \in ExcCodes}
+             fr \in Framings, u \in {1, 255}, f \in ExcFcs, code \in {x \in ExcCodes : InPart(x)}}
 
 \* byte-count field b against a payload of p bytes
 MismatchPDU(fc, b, p) == <<fc, b>> \o Pat("ramp", p)
@@ -122,7 +124,7 @@ C02Mismatch(z) ==
               : e \in RespEntries(fr, 17)} :
              fr \in Framings, ip \in IdLenP(0)}
 
-C02Cases(z) == C02Normal(0) \cup C02Exc(0) \cup C02Mismatch(0)
+C02Cases(z) == C02Normal(0) \cup C02Exc(0) \cup (IF Part = 0 THEN C02Mismatch(0) ELSE {})
 
 C02Self(k) == ClassifyResp(k.framing, k.frame).kind = k._want
 
